@@ -34,8 +34,8 @@ def std_cfg_in_models():
 
 
 def run(chk):
-    chk.level = 'other'
-    res = vlib.prove(chk, ['Opcodes', 'Codec', 'Verifier', 'Interp'], ['theories/Verifier.vo', 'theories/Interp.vo'], 'C20', [])
+    res = vlib.prove(chk, ['Opcodes', 'Codec', 'Verifier', 'Interp', 'JitMem', 'LibWrap'], ['theories/Verifier.vo', 'theories/Interp.vo', 'gen/JitMem.vo', 'gen/LibWrap.vo'], 'C20',
+                     ['theories/JitMemProofs.v'])
     found = False
     if res['model_ok']:
         hits = std_cfg_in_models()
